@@ -22,7 +22,7 @@ from ..solver_tv import FAMILY, other_clause_failures, report_failures, validate
 from .. import scen
 
 FAMILY["C13"] = {"NotifBefore", "NotifNewPoints", "NotifEndIterCount", "NotifStopCount", "NotifStopFinal", "NotifStopStatus",
-                 "ConsoleReport", "SolveReturns", "NoIntExc", "DgiCount"}
+                 "ConsoleReport", "SolveReturns", "NoIntExc", "DgiCount", "NotifListKept"}
 
 SUBSETS = [tuple(c) for k in range(4) for c in itertools.combinations(("before", "enditer", "stop"), k)]
 
